@@ -38,3 +38,5 @@ import WmModel.Props.C07
 #print axioms Wm.GcDec.dec_forwarding
 #print axioms Wm.GcDec.dec_one_pump_per_channel
 #print axioms Wm.GcDec.dec_witness
+#print axioms Wm.GcReg.removed_only_after_own_cancel_or_close
+#print axioms Wm.GcReg.subs_change
